@@ -118,7 +118,7 @@ func check(args []string) int {
 		fmt.Fprintln(os.Stderr, err)
 		return 2
 	}
-	res := &core.Result{Property: o.property, Tier: o.tier, Start: time.Now(), Explain: meta.Explain, Assume: meta.Assume, Extra: map[string]interface{}{}}
+	res := &core.Result{Property: o.property, Tier: o.tier, Start: time.Now(), Explain: meta.Explain + " Rules added after the seeded-change rounds (DESIGN.md section 9.4), including the necessary conditions shared with other properties, are listed with their texts and counts under coverage.rules.", Assume: meta.Assume, Extra: map[string]interface{}{}}
 	fail := func(err error, cfg string) int {
 		// a load failure, type error or analysis panic is an undecided obligation: the check fails
 		ctx := core.NewCtx(nil, o.property, cfg)
